@@ -1,7 +1,7 @@
 """C08 -- overlays and probes in concurrent threads do not interfere (engine E2)."""
 
 from .. import engine2, ir
-from .common import fn_table, gen_tape
+from .common import fn_table, gen_faults, gen_tape
 
 PROP = "C08"
 JUDGE = ("C08.",)
@@ -52,7 +52,10 @@ def gen(rng, tier, quarantine=()):
         calls = []
         for _ in range(rng.randint(1, 4)):
             f = rng.choice(shared)
-            calls.append({"op": "call", "fn": f, "nargs": FNS[f], "tape": gen_tape(rng, 4)})
+            # some calls are cut short by an injected failure of the environment (an exception
+            # travels through the instrumented frames of this thread while the others carry on)
+            calls.append({"op": "call", "fn": f, "nargs": FNS[f], "tape": gen_tape(rng, 4),
+                          "faults": gen_faults(rng, 4, rng.choice([0, 0, 0, 1]))})
         rounds = [{"probe": probe, "calls": calls}]
         if rng.random() < 0.35:
             # a second round in the same thread: another probe comes after the first one is over
